@@ -71,7 +71,8 @@ def centroid_1dg(data, error=None, mask=None):
     """
     (data, error), _ = process_quantities((data, error), ('data', 'error'))
 
-    data = np.ma.asanyarray(data)
+    # copy so that a mask of an input MaskedArray is not modified
+    data = np.ma.array(data, copy=True)
 
     if mask is not None and mask is not np.ma.nomask:
         mask = np.asanyarray(mask)
@@ -224,7 +225,8 @@ def centroid_2dg(data, error=None, mask=None):
 
     (data, error), _ = process_quantities((data, error), ('data', 'error'))
 
-    data = np.ma.asanyarray(data)
+    # copy so that a mask of an input MaskedArray is not modified
+    data = np.ma.array(data, copy=True)
 
     if mask is not None and mask is not np.ma.nomask:
         mask = np.asanyarray(mask)
